@@ -55,7 +55,12 @@ NegCount(m) == CASE m.k \in {"L", "U"} -> (m.cnt.k = "num" /\ m.cnt.i /\ m.cnt.n
                  [] OTHER -> FALSE
 AllNonEmpty(prog, ovr) == LET t == RegTab(prog, Env(prog, ovr)) IN \A r \in DOMAIN t : t[r].ok => Len(t[r].elems) >= 1
 
-VClauses(c) ==
+\* the program written with its macro definitions AFTER the body: a call in the body to one of them names "a gate that is
+\* neither native nor a previously defined macro" - refused when a native gate set is in force
+MLClauses(c) ==
+  F("error_type", \E j \in DOMAIN c.stages : c.stages[j].cls \notin {"ok", "jaqal_error", "parse_error", "skipped"})
+  \cup F("forward_call_rejected", c.model.natives # <<>> /\ HasMacroCall(c.model, BodyStmts(c.model)) /\ c.stages[1].cls = "ok")
+VClausesPlain(c) ==
   LET valid == ValidAll(c.model, c.ovr)
       ff == FirstFail(c)
       allok == ff.stage = "none"
@@ -89,6 +94,8 @@ VClauses(c) ==
                                             ELSE (IF c.applies[j].sub = k - 1 THEN <<[gate |-> c.applies[j].gate, qind |-> c.applies[j].qind]>> ELSE <<>>) \o Pick2(j + 1)
                             IN Pick2(1)
                  IN sg.visited /\ got # want)
+
+VClauses(c) == IF c.ml THEN MLClauses(c) ELSE VClausesPlain(c)
 
 VTriggers(c) ==
   F("NegativeLiteral", \E j \in DOMAIN AllStmts(c.model) : AllStmts(c.model)[j].k = "gate" /\
